@@ -14,7 +14,7 @@ import time
 
 HERE = os.path.dirname(os.path.abspath(__file__))
 VERIF = os.path.dirname(HERE)
-REPO = "/repo"
+REPO = os.environ.get("VLS_REPO", "/repo")
 
 
 def sh(cmd, **kw):
@@ -29,7 +29,7 @@ def main():
         prop = args[i + 1]
         del args[i:i + 2]
     vs = json.load(open(os.path.join(HERE, "variants.json")))
-    if sh("git -C /repo status --porcelain --untracked-files=no").stdout.strip():
+    if sh(f"git -C {REPO} status --porcelain --untracked-files=no").stdout.strip():
         print("refusing: /repo has uncommitted changes")
         return 2
     sel = [v for v in vs if (not args or v["id"] in args) and (prop is None or v["property"] == prop)]
@@ -76,7 +76,7 @@ def main():
         except KeyError:
             bad += 1
         finally:
-            sh("git -C /repo checkout -- .")
+            sh(f"git -C {REPO} checkout -- .")
     print(f"{len(sel) - bad}/{len(sel)} variants behaved as expected")
     return 1 if bad else 0
 
